@@ -36,6 +36,11 @@ pub fn install(h: Arc<dyn Hook>) { HOOK.with(|c| *c.borrow_mut() = Some(h)); }
 pub fn uninstall() { HOOK.with(|c| *c.borrow_mut() = None); }
 fn hook() -> Option<Arc<dyn Hook>> { HOOK.with(|c| c.borrow().clone()) }
 
+// ---- clock override: lets a harness dictate what the next `Instant::elapsed()` calls return ----
+thread_local! { static ELAPSED: RefCell<std::collections::VecDeque<std::time::Duration>> = RefCell::new(std::collections::VecDeque::new()); }
+pub fn push_elapsed_override(d: std::time::Duration) { ELAPSED.with(|c| c.borrow_mut().push_back(d)); }
+pub fn take_elapsed_override() -> Option<std::time::Duration> { ELAPSED.with(|c| c.borrow_mut().pop_front()) }
+
 pub struct AtomicU64 { inner: A64, id: u64 }
 impl fmt::Debug for AtomicU64 { fn fmt(&self, f: &mut fmt::Formatter<'_>) -> fmt::Result { self.inner.fmt(f) } }
 macro_rules! rmw {
